@@ -209,7 +209,10 @@ let hidden_events (s : Migrate.state) (next : oev) (pos : int) : Migrate.event l
     let waiting = (match o.Migrate.opc with Migrate.PAtDst | Migrate.PAtSrc -> true | _ -> false) in
     if is_int i0 && waiting && (not next_existsq || killed || shadowed) then []
     else begin
-      let goal = goal_moves (goal_of next i0 o) i0 o in
+      let goal = goal_moves (goal_of next i0 o) i0 o
+                 @ (match next with
+                    | ORedis (false, "p", "existsq", _, _, _, _) when Stdlib.List.mem i0 !exists_ops -> goal_moves GDstCmd i0 o
+                    | _ -> []) in
       if goal <> [] || is_int i0 then goal
       else begin
         (* routing moves that a pending phase / commit change would disable *)
